@@ -65,7 +65,7 @@ def gen_value(rng, depth=0):
         n = rng.randrange(1, 4)
         return "[" + ",".join(f"{pick(rng, ['a', 'b', 'k1', 'Z', 'm'])}{i}::{gen_scalar(rng)}" for i in range(n)) + "]"
     if k == 2 and depth == 0:
-        # holographic pattern (schema field definition syntax) — class of known finding C06N1 when it carries constraints
+        # holographic pattern (schema field definition syntax); with a constraint chain it is the input of the fixed finding C06N1
         ex = pick(rng, ['"x"', "4", "[a,b]", '"ACTIVE"'])
         chain = pick(rng, ["REQ", "OPT", "REQ∧ENUM[A,B]", "OPT∧TYPE[NUMBER]", 'REQ∧REGEX["^a"]', "REQ∧MAX_LENGTH[5]"])
         tgt = pick(rng, ["", "→§INDEXER", "→§SELF", "→§A∨§B"])
